@@ -152,9 +152,11 @@ func buildHostileScenario(r *Rng, idx int, maxConns int, endings []string) *Scen
 			// hostile input inside TLS: after the protocol's own upgrade command (smtp, ftp), or from the first byte
 			// (https: the dialogue then reaches the http handler behind the handshake)
 			switch {
-			case (s.Key == "smtp" || s.Key == "ftp") && r.Chance(0.15):
+			case (s.Key == "smtp" || s.Key == "ftp" || s.Key == "ldap") && r.Chance(0.15):
 				if s.Key == "smtp" {
 					a.Ops = append(a.Ops, SendOp([]byte("EHLO x\r\n"), nil, ""), SendOp([]byte("STARTTLS\r\n"), nil, ""))
+				} else if s.Key == "ldap" {
+					a.Ops = append(a.Ops, SendOp(bSeq(0x30, bInt(0x02, 16000), bSeq(0x77, bStr(0x80, "1.3.6.1.4.1.1466.20037"))).enc(false), nil, ""))
 				} else {
 					a.Ops = append(a.Ops, SendOp([]byte("AUTH TLS\r\n"), nil, ""))
 				}
